@@ -1032,6 +1032,13 @@ impl<A: Ar> Exec<A> {
                 }
                 if !self.ro && !zero_request {
                     self.check_policy_err(&pre, need_hi);
+                    // C18: after a truncate, allocations succeed exactly when they fit the new capacity
+                    if self.stats.truncates > 0 {
+                        let start = align_up(pre.allocated as usize, align) as u64;
+                        if start + need_lo <= cap as u64 {
+                            self.v("C18", "refused_fitting", format!("after truncate: request needing {} bytes at offset {} refused although capacity is {}", need_lo, start, cap));
+                        }
+                    }
                 }
                 self.obs(format!("err:{}", err_kind(&e)), None, None)
             }
@@ -1225,7 +1232,16 @@ impl<A: Ar> Exec<A> {
         if self.live_arenas() != 1 || self.live.iter().any(|l| l.r.owned) {
             return self.obs("noop".into(), None, None);
         }
-        // borrowed handles keep a pointer into the old mapping only via the arena value, which is updated
+        // truncate takes &mut self: no borrowed handle can be alive across it; what they refer to stays
+        // allocated as detached data
+        while let Some(mut l) = self.live.pop() {
+            l.h.0.detach_();
+            let r = l.r.clone();
+            drop(l);
+            if r.bcap > 0 {
+                self.kept.push(r);
+            }
+        }
         let idx = self.arenas.iter().position(|a| a.is_some()).unwrap();
         let pre = self.a().snap();
         let pre_cap = self.a().capacity();
